@@ -6,6 +6,7 @@ import ZstdVerif.Model.Rep
 import ZstdVerif.Lemmas.BitsRT
 import ZstdVerif.Lemmas.FSERT
 import ZstdVerif.Lemmas.HufRT
+import ZstdVerif.Lemmas.ExecRT
 namespace ZstdVerif.Props.C01
 open ZstdVerif
 
@@ -199,6 +200,27 @@ theorem huf_roundtrip (src : Bytes) (start n hmax : Nat) (st : Stats) (h : readS
     (lits : List Nat) (hl : ∀ s ∈ lits, ∃ hs : s < st.weights.size, 0 < st.weights[s]) :
     decodeFields (buildTable st) lits.length (encode1 (codesOf st.weights st.tableLog) lits) = (lits, { bits := [], over := false }) :=
   stream_roundtrip_readStats src start n hmax st h lits hl
+
+/-! ### sequence execution: any valid parse regenerates its source -/
+
+open Exec in
+/-- **exec_of_validParse**: let `lits`, `seqs` be ANY parse of the block content `x` that is valid against the history `dict ++ prev`
+(`Exec.ValidParse`: literal runs equal the source bytes, every match has `1 ≤ offset ≤ position + |dict|` and repeats the bytes `offset`
+behind it - overlapping matches and matches reaching into the dictionary included - and the trailing literals are the rest of `x`).
+Then the sequence executor the decoder model runs (`Exec.run` = ZSTD_execSequence loop + last literals of ZSTD_decompressSequences_body)
+returns exactly `prev ++ x` whenever the capacity admits it.  Whatever the match finders choose, validity of the parse is all the
+round trip needs; `Exec.ValidParse` is decidable and is what the conformance predicate evaluates on every emitted frame. -/
+theorem exec_of_validParse (dict prev x lits : ByteArray) (seqs : List Seq) (cap : Nat)
+    (hv : ValidParse dict prev x lits seqs) (hcap : prev.size + x.size ≤ cap) :
+    run dict { out := prev, frameStart := 0, cap := cap } lits seqs = .ok (prev ++ x) :=
+  Exec.exec_of_validParse dict prev x lits seqs cap hv hcap
+
+open Exec in
+/-- the same inside a multi-frame output (`pre` = earlier frames' content, not part of this frame's history) -/
+theorem exec_of_validParse_frame (dict pre prev x lits : ByteArray) (seqs : List Seq) (cap : Nat)
+    (hv : ValidParse dict prev x lits seqs) (hcap : pre.size + prev.size + x.size ≤ cap) :
+    run dict { out := pre ++ prev, frameStart := pre.size, cap := cap } lits seqs = .ok (pre ++ prev ++ x) :=
+  Exec.exec_of_validParse_frame dict pre prev x lits seqs cap hv hcap
 
 example : Rep.resolve ⟨1, 4, 8⟩ (Rep.finalizeOffBase 4 ⟨1, 4, 8⟩ false) 0 = (4, ⟨4, 1, 8⟩) := by decide
 
